@@ -102,7 +102,7 @@ class Harness:
         from pyvc import spec
         self.spec = spec
         self.contract = spec.CONTRACTS[req["target"]]
-        self.fn = resolve_function(req["target"])
+        self.fn = resolve_function(self.contract.target)
         c = self.contract
         self.requires = [Clause("requires." + n, t) for n, t in c.requires.items()]
         self.ensures = [Clause("ensures." + n, t) for n, t in c.ensures.items()]
@@ -130,6 +130,17 @@ class Harness:
                 gh[g] = bindings.to_native(shape, ghost[g], self.opaque)
         ns.update(args)
         ns.update(gh)
+        # ghost sequences: G(0)=init, G(k+1)=step[prev, elem, k] folded over the real sequence
+        for gname, gs in getattr(c, "ghost_seqs", {}).items():
+            over = list(eval(gs["over"], ns))  # pylint: disable=eval-used
+            vals = [eval(gs["init"], ns)]  # pylint: disable=eval-used
+            fn = (lambda vals: (lambda i: vals[i]))(vals)
+            ns[gname] = fn
+            step = compile(gs["step"], f"<ghost {gname}>", "eval")
+            for k, elem in enumerate(over):
+                ns2 = dict(ns)
+                ns2.update(prev=vals[k], elem=elem, k=k)
+                vals.append(eval(step, ns2))  # pylint: disable=eval-used
         return args, ns
 
     def run_case(self, inputs, ghost=None, ghost_required=True):
